@@ -164,7 +164,7 @@ MUTANTS = [
      "if( m_current.data > m_buffer.get() + Chunk ) {", "if( m_current.data > m_buffer.get() + 2 * Chunk ) {", ["C07"], "discard() a no-op more often than documented: overflow_error inside the guarantee"),
 ]
 
-CHECK_TARGETS = {"C02": ["core"], "C03": ["core"], "C05": ["core"], "C07": ["core", "io"], "C08": ["core", "cov"], "C12": ["tree"], "C13": ["core", "io"], "C18": ["core"]}
+CHECK_TARGETS = {"C02": ["core"], "C03": ["core"], "C05": ["core", "io"], "C07": ["core", "io"], "C08": ["core", "cov"], "C12": ["tree"], "C13": ["core", "io"], "C18": ["core"]}
 
 
 def run(cmd, **kw):
